@@ -572,3 +572,59 @@ per_file_lengths = Contract(
                  'the ref_lengths in effect at the call'],
 )
 UNITS.append(per_file_lengths)
+
+
+# ------------------------------------------------------------------------------ create_count_table with -bedfile and -contig: every region
+# of the selected contig is counted, wherever its row stands in the BED file (bounded: 3 rows)
+def bed_setup(eng):
+    eng.ghost.clear()
+    eng.ghost['fetches'] = []
+    eng.spec_env['GHOST'] = eng.ghost
+    rows, lines = [], []
+    for i in range(3):
+        c = _segstr.register_atom(eng, named(STR, 'bed_contig_%d' % i), ' \t\n\r\x0b\x0c')
+        s_, e_ = named(INT, 'bed_start_%d' % i), named(INT, 'bed_end_%d' % i)
+        nm = _segstr.register_atom(eng, named(STR, 'bed_name_%d' % i), ' \t\n\r\x0b\x0c')
+        eng.assume(z3.And(z3.Length(c.z) >= 1, z3.Length(nm.z) >= 1, s_.z >= 0, e_.z >= s_.z))
+        rows.append((c, s_, e_, nm))
+        lines.append(_segstr.build([c, '\t'] + _segstr.parts_of(eng.to_str(s_)) + ['\t'] + _segstr.parts_of(eng.to_str(e_)) + ['\t', nm, '\n']))
+    eng.spec_env['ROWS'] = rows
+    fh = Obj('TextFile', {'lines': lines})
+    fh.vc_immutable = True
+    stubs.STUBS['TextFile'] = {'methods': {'__enter__': lambda e, o: o, '__exit__': lambda e, o, *a: None,
+                                           '__iter__': lambda e, o: list(o.attrs['lines'])}, 'props': {}, 'setters': {}}
+    eng.spec_env['OPEN'] = _Builtin('open', lambda e, a, k, n: fh)
+    bam = Obj('BamFile2', {'mapped': 1, 'unmapped': 0, 'nocoordinate': 0})
+    bam.vc_immutable = True
+    stubs.STUBS['BamFile2'] = {'methods': {'fetch': lambda e, o, *a, **k: (e.ghost['fetches'].append(tuple(a)), [])[1]},
+                               'props': {}, 'setters': {}}
+    eng.spec_env['BAM'] = bam
+    # float("<int>") of a BED coordinate: the integer itself
+    eng.spec_env['FLOAT'] = _Builtin('float', lambda e, a, k, n: e.call(e.builtins()['int'], a, k))
+
+
+def bed_block(f):
+    c = _blocks.find_nodes(f, lambda n: isinstance(n, _ast.With) and 'args.bedfile' in _ast.unparse(n.items[0].context_expr))
+    return c[:1]
+
+
+bed_regions = Contract(
+    PROP, F + '::create_count_table', name='create_count_table[-bedfile with -contig, 3 BED rows]',
+    block=bed_block,
+    params={'args': lambda e, n: Obj('Namespace', {'bedfile': 'regions.bed', 'contig': 'chr1', 'head': None})},
+    setup=bed_setup,
+    pre_state=lambda eng, fr: fr.env.update({'open': eng.spec_env['OPEN'], 'float': eng.spec_env['FLOAT'], 'f': eng.spec_env['BAM'],
+                                             'countTable': {}, 'joinFeatures': True, 'featureTags': ['DS'], 'sampleTags': ['SM'],
+                                             'blacklist_dic': None, 'assigned': 0, 'bamFile': 'in.bam', 'i': 0}),
+    ensures={
+        'every_region_of_the_selected_contig_is_fetched':
+            'all(implies(ROWS[i][0] == "chr1", any([q[0] == "chr1" and q[1] == ROWS[i][1] and q[2] == ROWS[i][2] for q in GHOST["fetches"]])) '
+            'for i in range(3))',
+        'no_other_region_is_fetched':
+            'len(GHOST["fetches"]) == sum([(1 if ROWS[i][0] == "chr1" else 0) for i in range(3)])',
+    },
+    raises={},
+    bounded='a BED file of 3 rows (symbolic contig names, coordinates and region names), -contig chr1, regions without reads',
+    assumptions=['BED rows: contig, start, end, name separated by tabs; float() of a coordinate is the integer written there'],
+)
+UNITS.append(bed_regions)
